@@ -59,6 +59,13 @@ CHECKS += [
           'trusted: TLC, g++ sanitizers, the value catalogue (C++ value <-> abstract value); unspecified padding cases are not compared', 'tla-printing'),
 ]
 
+CHECKS += [
+    other('C19', 'the expectation builder is a typestate machine in TLA+ (Clauses.tla, transcribed from the static_asserts); TLC explores every reachable legal typestate and emits one statement per transition with the diagnostics it must produce; '
+                 'every statement is compiled (C++20 all kinds incl. three coroutine kinds, C++14 non-coroutine) and must show exactly that verdict (legal: no error; illegal: the documented message); plus the 68 shipped negative programs against their own pass rules, a fixed catalogue (parameter index beyond arity, MAKE_MOCKn arity, value from matcher, moving a non-movable mock, deathwatched without virtual destructor) and the LONG_MACROS macro-namespace check',
+          'TLA+ typestate machine explored by TLC; its state graph is the test plan (one compile test per transition), verdicts compared with g++ diagnostics', '6/C19',
+          'trusted: TLC, g++ 12 diagnostics attribution through "required from here"; clause arguments are well-typed; clang not used in the quick tier', 'tla-clauses'),
+]
+
 NOT_YET = {
     'C09': 'check under construction in this round (generated program family + Binding.tla); not claimed until it runs clean',
     'C10': 'check under construction in this round (Matchers.tla + matcher driver); not claimed until it runs clean',
@@ -78,7 +85,8 @@ def main():
                    enable='-DROLLBEAR_TROMPELOEIL_VERIF on the C12 driver build only (no hook commit exists yet; the sequential checks use the public API only)',
                    baseline_off_cmd='cmake -G Ninja -S /repo -B /repo/_build -DCMAKE_BUILD_TYPE=RelWithDebInfo -DCMAKE_CXX_FLAGS=-Wno-error -DTROMPELOEIL_BUILD_TESTS=yes && cmake --build /repo/_build && ctest --test-dir /repo/_build -j8 --timeout 900 --output-junit /repo/_build/junit.xml',
                    source_commits=[], add_only=True),
-        engines=[dict(name='tla-matchers', path='spec/Matchers.tla', serves_properties=['C10', 'C11'], kind_free_text='TLA+ oracle + TLC trace validation of real matcher verdicts'),
+        engines=[dict(name='tla-clauses', path='spec/Clauses.tla', serves_properties=['C19'], kind_free_text='TLA+ typestate machine, TLC-generated transition cover compiled by g++'),
+                 dict(name='tla-matchers', path='spec/Matchers.tla', serves_properties=['C10', 'C11'], kind_free_text='TLA+ oracle + TLC trace validation of real matcher verdicts'),
                  dict(name='tla-printing', path='spec/Printing.tla', serves_properties=['C18'], kind_free_text='TLA+ oracle + TLC trace validation of real print() output'),
                  dict(name='tla-core', path='spec/Core.tla', serves_properties=[c['property_id'] for c in CHECKS if c['engine'] == 'tla-core'],
                       kind_free_text='TLA+ spec + TLC model checking + trace validation of the real library (harness/seq driver)')],
